@@ -5,8 +5,9 @@
    accesses inside _raise, the death watch and the timeout handler is read off the source
    (Gen/GenAsync.v, Gen/GenStruct.v). *)
 From Coq Require Import List Arith Lia Bool String ZArith.
-From Mpv Require Import GenAsync GenStruct OrderHist Apply.
+From Mpv Require Import GenAsync GenStruct GenObserve OrderHist Apply.
 Import ListNotations.
+Close Scope string_scope.
 Close Scope Z_scope.
 Open Scope nat_scope.
 
@@ -42,6 +43,23 @@ Definition handle_exception_waits_for_named_job : bool :=
 Definition stored_exceptions_reset_when_workers_start : bool :=
   has "self._cache[MAIN_PROCESS].reset()" start_workers_body && has "self._cache[INIT_FUNC].reset()" start_workers_body &&
   has "self._cache[EXIT_FUNC].reset()" start_workers_body.
+
+(* every wait of the dispatch loop of imap_unordered (before drawing the next chunk, before dispatching it, while
+   collecting the remaining results) stops as soon as the exception event is set: main then handles the failure *)
+Definition dispatch_waits_stop_on_exception : bool :=
+  has "        while not self._worker_comms.exception_thrown() and n_active > max_tasks_active:" imap_unordered_body_obs &&
+  has "        while not self._worker_comms.exception_thrown() and n_active > 0 and (n_active + len(chunk_of_tasks) > max_tasks_active):" imap_unordered_body_obs &&
+  has "      while not self._worker_comms.exception_thrown():" imap_unordered_body_obs &&
+  has "        if self._worker_comms.exception_thrown():" imap_unordered_body_obs &&
+  has "      if self._worker_comms.exception_thrown():" imap_unordered_body_obs &&
+  has "        self._handle_exception()" imap_unordered_body_obs.
+
+(* terminate() returns: the helper that empties a queue goes on until the queue is empty AND every announced item was
+   taken (a momentarily empty pipe between two large messages is not the end), so the feeder threads can finish *)
+Definition terminate_drains_queues_completely : bool :=
+  has "  while not q.empty() or n != 0:" drain_and_join_queue_inner_body &&
+  has "    q.get(block=True, timeout=1.0)" drain_and_join_queue_inner_body && has "    n -= 1" drain_and_join_queue_inner_body &&
+  has "    q.task_done()" drain_and_join_queue_inner_body.
 
 (* ---- the model ---- *)
 Inductive jid := JMap | JInit | JExit.
@@ -145,11 +163,14 @@ Definition fstep (s : fst) (a : flabel) : option fst :=
   | LMain =>
       match fmn s with
       | FWait =>
-          if fexn s then Some (mkF (ws s) (fexn s) (fjob s) (fresq s) (cexc s) (to2 s) (FHandle (fjob s)) (flog s))
+          if fexn s then
+            (if dispatch_waits_stop_on_exception
+             then Some (mkF (ws s) (fexn s) (fjob s) (fresq s) (cexc s) (to2 s) (FHandle (fjob s)) (flog s))
+             else None)                          (* main keeps waiting for results that will never come *)
           else if forallb (fun x => match wpc x with FStopped => true | _ => false end) (ws s)
                then Some (mkF (ws s) (fexn s) (fjob s) (fresq s) (cexc s) (to2 s) FDone (flog s)) else None
       | FHandle j =>
-          if handle_exception_waits_for_named_job then
+          if handle_exception_waits_for_named_job && terminate_drains_queues_completely then
             match cexc s j with
             | Some e => Some (mkF (map (fun x => mkFW FStopped (todo x)) (ws s)) (fexn s) (fjob s) (fresq s) (cexc s) (to2 s)
                                   (FRaised e) (flog s))      (* terminate: every worker is gone, then raise *)
